@@ -2,6 +2,7 @@
 
 spec/GroupSub.tla (+ MC_GroupSub, Trace_GroupSub); harness/server/c13/c13_verif_test.go
 """
+import json
 import os
 import random
 import re
@@ -46,8 +47,25 @@ def to_stimulus(steps, rng, bid):
             a['badkind'] = rng.choice(BADKINDS)
         if a['a'] == 'Subscribe' and a['q'].get('stop') != 'none' and 'stopoff' not in a:
             a['stopoff'] = rng.choice([3, 1000])
+        if a['a'] == 'Burst' and 'mode' not in a:
+            # free-running goroutines, or all parked on consumersMu and released in FIFO order
+            a['mode'] = rng.choice(['free', 'convoy'])
+        if a['a'] == 'Race' and 'first' not in a:
+            # which contender reaches consumersMu first (the ending loop's clean-up mostly)
+            a['first'] = rng.choice(['exit', 'exit', 'exit', 'sub'])
         out['steps'].append(a)
     return out
+
+
+def stranded_at(events, line, group):
+    """situation of the open finding at the failing trace line (1-based line of the run's trace): an active
+    member of `group` is served by a server that does not lead the partition, before or after the step"""
+    for ev in events[max(0, line - 2):line]:
+        st = ev.get('st') or {}
+        for x in st.get('subs', []):
+            if x['g'] and (group is None or x['g'] == group) and x['open'] and x['loop'] and x['n'] != st.get('ldr'):
+                return True
+    return False
 
 
 def features(b):
@@ -55,6 +73,10 @@ def features(b):
     f = set()
     seen = {}
     for s in b['steps']:
+        if s['a'] == 'Race':
+            f.add('loop-exit-races-with-subscribe')
+        if s['a'] == 'Elect':
+            f.add('leader-change')
         if s['a'] == 'Burst':
             f.add('concurrent-subscribes')
         if s['a'] == 'Subscribe' and s['q']['g']:
@@ -76,13 +98,19 @@ def nontrivial(b):
     for s in b['steps']:
         if s['a'] == 'Subscribe' and s['q']['g'] and not s['q'].get('bad'):
             n[s['q']['g']] = n.get(s['q']['g'], 0) + 1
+        if s['a'] == 'Race':
+            n['g1'] = n.get('g1', 0) + 1
         if s['a'] == 'Burst':
             n[s['g']] = n.get(s['g'], 0) + len(s['cs'])
     acts = {s['a'] for s in b['steps']}
-    return max(n.values() or [0]) >= 2 and bool(acts & {'LoopExit', 'Cancel'})
+    return max(n.values() or [0]) >= 2 and bool(acts & {'LoopExit', 'Cancel', 'Race', 'Elect'})
 
 
 def execute(behaviours, d, timeout=1200):
+    """Runs the behaviours on the real code.  Returns (trace, failure): failure is None when the harness ran to its
+    end; otherwise it says why it did not (timeout, hang at tear-down, dead process) and the trace holds the steps
+    recorded up to then - every recorded line was written after the step's quiescence waits succeeded, so it is a
+    valid observation that TLC may still judge (a violation found in it is real; without one the run is inconclusive)."""
     stim = os.path.join(d, 'stim.json')
     trace = os.path.join(d, 'trace.ndjson')
     core.write_json(stim, {'behaviours': behaviours})
@@ -90,14 +118,41 @@ def execute(behaviours, d, timeout=1200):
         core.log('stimuli at', stim)
     rc, out, wall = core.go_test('server', '^TestVerifGroupSub$',
                                  {'VERIF_STIMULI': stim, 'VERIF_TRACE_OUT': trace}, timeout=timeout, subs=['c13'])
-    if rc != 0 or not os.path.exists(trace):
-        raise core.Inconclusive('harness failed rc=%s: %s' % (rc, out[-3000:]))
-    return trace
+    if rc == 0 and os.path.exists(trace):
+        return trace, None
+    failure = 'harness failed rc=%s: %s' % (rc, out[-3000:])
+    if not os.path.exists(trace):
+        raise core.Inconclusive(failure)
+    good = []
+    with open(trace) as fh:
+        for line in fh:
+            try:
+                json.loads(line)
+            except ValueError:
+                break
+            good.append(line if line.endswith('\n') else line + '\n')
+    if len(good) < 2:
+        raise core.Inconclusive(failure)
+    with open(trace, 'w') as fh:
+        fh.writelines(good)
+    return trace, failure
+
+
+def execute_and_judge(rep, behaviours, d, timeout=1200):
+    trace, failure = execute(behaviours, d, timeout)
+    tr = judge(rep, behaviours, trace)
+    if failure:
+        if rep.violations:
+            core.log('the harness did not finish (%s); the steps recorded before that show a violation' % failure[:300])
+        else:
+            raise core.Inconclusive(failure)
+    return tr
 
 
 def judge(rep, behaviours, trace):
     res = core.tlc_trace('Trace_GroupSub.tla', 'Trace_GroupSub.cfg', trace)
     by_id = {b['id']: b for b in behaviours}
+    events = None
     bad = {}
     drifting = []
     for kind, tid, line, action, name in res['fails']:
@@ -113,7 +168,15 @@ def judge(rep, behaviours, trace):
         fl.sort()
         line, action, name = fl[0]
         b = by_id[tid]
-        sig = 'C13|%s|%s|%s' % (name, action, features(b))
+        if events is None:
+            events = core.read_ndjson(trace)
+        ev = events[line - 1] if 0 < line <= len(events) else {}
+        grp = ((ev.get('args') or {}).get('q') or {}).get('g') or (ev.get('args') or {}).get('g')
+        feat = features(b)
+        if stranded_at(events, line, grp):
+            # the recorded state itself shows the situation of the open finding
+            feat = 'member-stranded-on-former-leader'
+        sig = 'C13|%s|%s|%s' % (name, action, feat)
         rb = [b]
         if any(st['a'] == 'Burst' for st in b['steps']):
             # concurrent subscribes: the schedule is the Go runtime's; the replay repeats the behaviour
@@ -200,6 +263,8 @@ _lab_re = re.compile(r'^(\w+)\((.*)\)$')
 
 def label_step(lab):
     lab = lab.replace('\\"', '"')
+    if lab.strip() == 'MCElect':
+        return {'a': 'Elect'}
     m = _lab_re.match(lab.strip())
     if not m:
         raise core.Inconclusive('cannot parse action label %r' % lab)
@@ -209,6 +274,10 @@ def label_step(lab):
                                         'bad': args[5], 'stop': args[6]}}
     if name == 'MCBurst':
         return {'a': 'Burst', 'g': args[0], 'cs': [args[1], args[2]], 'e': args[3]}
+    if name == 'MCRace':
+        return {'a': 'Race', 's': args[0], 'c': args[1], 'e': args[2]}
+    if name == 'MCElect' or lab.strip() == 'MCElect':
+        return {'a': 'Elect'}
     if name == 'MCCancel':
         return {'a': 'Cancel', 's': args[0]}
     if name == 'MCLoopExit':
@@ -221,8 +290,7 @@ def run(rep, tier, seed, replay):
     if replay:
         behaviours = replay['replay']['behaviours']
         with core.scratch('c13') as d:
-            trace = execute(behaviours, d)
-            judge(rep, behaviours, trace)
+            execute_and_judge(rep, behaviours, d)
         rep.cov['rule'] = 'replay of a saved stimulus'
         rep.cov['samples'] = behaviours[:1]
         return
@@ -231,12 +299,18 @@ def run(rep, tier, seed, replay):
     res = core.tlc_check('MC_GroupSub.tla', 'MC_GroupSub.cfg' if quick else 'MC_GroupSub_thorough.cfg',
                          timeout=3000, coverage=not quick)
     rep.add_design('MC_GroupSub', res)
+    if not quick:
+        # thorough: the wide instance above (2 groups, plain subscriptions, bursts) has no leader change and no race;
+        # a second, deeper one-group instance has both
+        res2 = core.tlc_check('MC_GroupSub.tla', 'MC_GroupSub_thorough2.cfg', timeout=3000)
+        rep.add_design('MC_GroupSub_thorough2', res2)
     if res['violated']:
         core.log('design check reports %s (not a verdict; the behaviours below decide)' % res['violated'])
     # 2. the historically defective clean-up (entry removed by consumer id): TLC's counterexamples
     #    become directed stimuli for the real code
     directed = []
-    for cfg in ('MC_GroupSub_byid.cfg', 'MC_GroupSub_follower.cfg', 'MC_GroupSub_openended.cfg'):
+    for cfg in ('MC_GroupSub_byid.cfg', 'MC_GroupSub_follower.cfg', 'MC_GroupSub_openended.cfg',
+                'MC_GroupSub_stranded.cfg'):
         r2 = core.tlc_check('MC_GroupSub.tla', cfg, timeout=600, workers=1)
         rep.cov['design_checks'].append({'config': cfg + ' (defective variant, expected to fail)',
                                          'violated': r2['violated'], 'distinct_states': r2['distinct'],
@@ -252,8 +326,12 @@ def run(rep, tier, seed, replay):
                               {'a': 'LoopExit', 's': 2}, {'a': 'Cancel', 's': 3}])
     # 3. every transition of a bounded instance
     cover, nstates, nedges = edge_cover('MC_GroupSub_cover.cfg' if quick else 'MC_GroupSub_cover_thorough.cfg')
-    rep.cov['cover_states'] = nstates
-    rep.cov['cover_transitions'] = nedges
+    #    and of a second one with leader changes and loop exits racing with subscribes
+    cover2, nstates2, nedges2 = edge_cover('MC_GroupSub_cover2.cfg' if quick else 'MC_GroupSub_cover2_thorough.cfg')
+    cover += cover2
+    rep.cov['cover_states'] = nstates + nstates2
+    rep.cov['cover_transitions'] = nedges + nedges2
+    nstates, nedges = nstates + nstates2, nedges + nedges2
     # 4. deeper random behaviours of the specification (2 groups, plain subscriptions)
     num = 1500 if quick else 20000
     depth = 12 if quick else 16
@@ -264,8 +342,7 @@ def run(rep, tier, seed, replay):
         behaviours.append(to_stimulus(steps, rng, len(behaviours) + 1))
     # 5. execute on the real code, 6. TLC judges
     with core.scratch('c13') as d:
-        trace = execute(behaviours, d)
-        tr = judge(rep, behaviours, trace)
+        tr = execute_and_judge(rep, behaviours, d, timeout=1200 if quick else 3000)
     rep.cov['traces_validated_against_impl'] = len(behaviours)
     rep.cov['trace_lines_validated'] = tr['validated']
     rep.cov['evaluations'] = len(behaviours)
